@@ -1,4 +1,5 @@
 import OnlVerif.Lemmas.PortKRun
+import OnlVerif.Lemmas.PortKRec
 /-!
 # C09 on the kernel: the Port *as a process on the kernel model* refines its LTS and serialises at its line rate
 
@@ -31,6 +32,51 @@ theorem port_on_kernel_departures (size : Int → Nat) (rate : ℚ) (hr : 0 < ra
   obtain ⟨sF, aF, h1, h2, h3⟩ := run_returns hr fuel n _ _ h0 hmu
   exact ⟨sF, h1, h3, (inv_final h2 h3).1⟩
 
+/-- **What the list `departures` is** (the C09 recurrence, by index): it has one entry per arrival; entry `k` carries
+the id of arrival `k` and the instant `max(a_k, d_{k-1}) + 8·size_k/rate` (just `a_0 + 8·size_0/rate` for `k = 0`),
+where `a_k` = the sum of the first `k + 1` gaps and `d_{k-1}` = the instant of entry `k - 1`. -/
+theorem departure_recurrence (size : Int → Nat) (rate : ℚ) (hr : 0 < rate) (arrivals : List (ℚ × Int)) (k : Nat)
+    (hk : k < arrivals.length) :
+    (departures size rate none 0 arrivals).length = arrivals.length ∧
+    ((departures size rate none 0 arrivals).getD k (0, 0)).1 = (arrivals.getD k (0, 0)).2 ∧
+    ((departures size rate none 0 arrivals).getD k (0, 0)).2 =
+      (if k = 0 then arrivalAt 0 arrivals 0
+       else max (arrivalAt 0 arrivals k) ((departures size rate none 0 arrivals).getD (k - 1) (0, 0)).2) +
+        ((size (arrivals.getD k (0, 0)).2 * 8 : ℕ) : ℚ) / rate := by
+  have h := departures_getD size rate arrivals none 0 k hk
+  refine ⟨departures_length size rate arrivals none 0, h.1, ?_⟩
+  rw [h.2]
+  have htx : ∀ id, txDelay size rate id = ((size id * 8 : ℕ) : ℚ) / rate := by
+    intro id; unfold txDelay txTime; rw [zero_eq', if_pos hr]; rfl
+  rw [htx]
+  by_cases h0 : k = 0
+  · simp [h0]
+  · simp [h0]
+
+/-- a burst of three packets at t = 1, an arrival at t = 3 exactly when packet 2 leaves, an arrival at t = 4 exactly
+when packet 3 leaves (`rate = 8`, one-byte packets: one time unit each): the kernel model runs the two processes to
+the end and its trace is the recurrence -/
+example : (finalState (runAll (body (fun _ => 1) (8 : ℚ)) 1 24
+      (initState [(1, 1), (0, 2), (0, 3), (2, 4), (1, 5)]))).map (fun s => (s.agenda.length, outsOf s.trace)) =
+    some (0, [(1, 2), (2, 3), (3, 4), (4, 5), (5, 6)]) := by
+  decide +kernel
+
+example : departures (fun _ => 1) (8 : ℚ) none 0 [(1, 1), (0, 2), (0, 3), (2, 4), (1, 5)] =
+    [(1, 2), (2, 3), (3, 4), (4, 5), (5, 6)] := by
+  decide +kernel
+
+/-- an arrival at the very instant the only packet leaves and the port falls idle (t = 1), then an idle period;
+sizes 5 (odd ids) and 10 (even ids) bytes at `rate = 40` -/
+example : (finalState (runAll (body (fun i => if i % 2 = 0 then 10 else 5) (40 : ℚ)) 1 16
+      (initState [(0, 1), (1, 2), (7, 3)]))).map (fun s => outsOf s.trace) =
+    some (departures (fun i => if i % 2 = 0 then 10 else 5) (40 : ℚ) none 0 [(0, 1), (1, 2), (7, 3)]) := by
+  decide +kernel
+
+/-- with one step less than `4·n + 4` the run is not finished: the bound of `port_on_kernel_departures` is exact -/
+example : (finalState (runAll (body (fun _ => 1) (8 : ℚ)) 1 11 (initState [(1, 1), (0, 2)]))).isNone = true ∧
+    (finalState (runAll (body (fun _ => 1) (8 : ℚ)) 1 12 (initState [(1, 1), (0, 2)]))).isSome = true := by
+  decide +kernel
+
 /-- **Refinement, step by step**: let `s` be reachable by kernel steps from the initial state and let the next
 kernel step end in `s'`.  Then there is a (possibly empty) sequence of LTS actions that the Port LTS *accepts* from
 the abstraction of `s`, that ends exactly in the abstraction of `s'` (the step commutes with `absPort`), and whose
@@ -54,6 +100,14 @@ theorem port_on_kernel_step_refines (size : Int → Nat) (rate : ℚ) (hr : 0 < 
     refine ⟨h1, acts, insI.map Int.toNat, new.map (·.1.toNat), ?_, ?_⟩
     · rw [absPort_eq hi.k, absPort_eq h2.k]; exact h6
     · rw [h4]; simp
+
+/-- a reachable state in the middle of a run (after 11 kernel steps of the burst workload): the abstraction function
+gives an LTS state with one packet in transmission until t = 3 and one waiting, `byte_size = 2` -/
+example : (match runAll (body (fun _ => 1) (8 : ℚ)) 1 11 (initState [(1, 1), (0, 2), (0, 3), (2, 4), (1, 5)]) with
+    | .outOfFuel s => some ((absPort (fun _ => 1) s).now, (absPort (fun _ => 1) s).tx.map (fun x => (x.1.id, x.2.1)),
+        (absPort (fun _ => 1) s).items.map (·.id), (absPort (fun _ => 1) s).dev.byteSize)
+    | _ => none) = some (2, some (2, 3), [3], 2) := by
+  decide +kernel
 
 /-- **Refinement, whole runs**: every state reachable by kernel steps is the image of an *admissible* run of the
 Port LTS from its initial state: the LTS accepts some action sequence that ends in `absPort s`, in which the accepted
